@@ -410,6 +410,9 @@ class MixedEdgeGraph:
         add_edges_from : add a collection of edges
         """
         u, v = u_of_edge, v_of_edge
+        if edge_type != "all":
+            # an unknown edge type raises before the nodes are added
+            graph = self._get_internal_graph(edge_type)
         # add nodes
         if u not in self._node:
             self.add_node(u)
@@ -418,7 +421,7 @@ class MixedEdgeGraph:
         if edge_type == "all":
             self._apply_to_all_graphs("add_edge", u_of_edge, v_of_edge, **attr)
         else:
-            self._get_internal_graph(edge_type).add_edge(u_of_edge, v_of_edge, **attr)
+            graph.add_edge(u_of_edge, v_of_edge, **attr)
 
     def add_edges_from(self, ebunch_to_add, edge_type, **attr):
         """Add all the edges in ebunch_to_add.
@@ -450,6 +453,12 @@ class MixedEdgeGraph:
         """
         # the bunch is traversed once here and once per edge-type graph: an iterator would be exhausted
         ebunch_to_add = list(ebunch_to_add)
+        # an unknown edge type raises before any node is added
+        if edge_type == "all":
+            graphs = [self._get_internal_graph(_edge_type) for _edge_type in self.edge_types]
+        else:
+            graphs = [self._get_internal_graph(edge_type)]
+
         for e in ebunch_to_add:
             ne = len(e)
             if ne == 3:
@@ -467,13 +476,8 @@ class MixedEdgeGraph:
                     raise ValueError("None cannot be a node")
                 self.add_node(v, **attr)
 
-        if edge_type == "all":
-            edge_type = self.edge_types
-        else:
-            edge_type = [edge_type]
-
-        for _edge_type in edge_type:
-            self._get_internal_graph(_edge_type).add_edges_from(ebunch_to_add, **attr)
+        for graph in graphs:
+            graph.add_edges_from(ebunch_to_add, **attr)
 
     def remove_edge(self, u, v, edge_type="all"):
         """Remove an edge between u and v.
